@@ -331,7 +331,7 @@ func runSelfTest(repo, verif, prop string) map[string]interface{} {
 	for _, r := range out {
 		neutral := strings.HasPrefix(r.ID, "neutral-")
 		want := !neutral
-		if strings.Contains(r.ID, "-mut") {
+		if strings.Contains(r.ID, "-mut") || strings.Contains(r.ID, "-tmut") {
 			nMech++
 			if r.Detected {
 				detMech++
